@@ -146,7 +146,8 @@ def billing_reads_line(case, dates, vals):
     present_dates = [d for d, _ in present] + [dates[-1]]
     cyc = billing_cycle([d for d, _ in present])
     bounds = pd.date_range(dates[0].normalize(), dates[-1].normalize(), freq="D")
-    reads = [f"{minute(d)}:{frac_str(v)}" for d, v in present] + [f"{minute(dates[-1])}:nan"]
+    wall = lambda d: minute(d.tz_localize(None))
+    reads = [f"{minute(d)}:{wall(d)}:{frac_str(v)}" for d, v in present] + [f"{minute(dates[-1])}:{wall(dates[-1])}:nan"]
     return cyc, bounds, " ".join(["resample", cyc or "billing_monthly", ",".join(str(minute(b)) for b in bounds)] + reads), present
 
 
@@ -162,7 +163,7 @@ def oracle_billing(case, data, dates, vals):
     hi = 35 if cyc == "billing_monthly" else 70
     total_valid = Fraction(0)
     for (a, v), b in zip(present, ends):
-        ndays = (b - a).days
+        ndays = (b.tz_localize(None) - a.tz_localize(None)).days          # local calendar days
         rows = df.loc[(df.index >= a) & (df.index < b), "observed"]
         nloc = len(pd.date_range(a, b, freq="D", inclusive="left"))
         if 25 <= ndays <= hi:
@@ -351,6 +352,14 @@ def one_case(case, res, sigs, lines, metas):
     res["hist"][case["kind"]] = res["hist"].get(case["kind"], 0) + 1
     try:
         if case["kind"] == "billing":
+            # a calendar on which EVERY period is off-cycle is not billing data the class can use (it raises); not a C08 matter
+            dts = [pd.Timestamp(d).tz_convert(case["tz"]) for d in case["dates"]]
+            pres = [d for d, v in zip(dts[:-1], case["values"]) if v is not None] + [dts[-1]]
+            cyc0 = billing_cycle(pres[:-1])
+            lens0 = [(b.tz_localize(None) - a.tz_localize(None)).days for a, b in zip(pres[:-1], pres[1:])]
+            if cyc0 is None or not cyc0.startswith("billing") or not any(25 <= L <= (35 if cyc0 == "billing_monthly" else 70) for L in lens0):
+                res["hist"]["billing_calendar_without_any_on_cycle_period_skipped"] = res["hist"].get("billing_calendar_without_any_on_cycle_period_skipped", 0) + 1
+                return
             data, dates, vals = run_billing(case)
             fails = oracle_billing(case, data, dates, vals)
             if fails is None:
